@@ -9,31 +9,59 @@ LEAN_AUDIT = "Dashu.Audit.C15"
 USES_GEN = True
 GEN_PROPS = ["Dashu.Props.GenInt"]
 GEN_AUDIT = ["Dashu.Audit.GenInt"]
+# Tie A, typed translator: the by-reference operator forms `FBig ± &FBig`, `&FBig ± &FBig` regenerated from float/src/add.rs
+GEN_PROPS += ["Dashu.Props.GenFloatForms"]
+GEN_AUDIT += ["Dashu.Audit.GenFloatForms"]
 REFINED = ["IBig operator bodies (impl_ibig_* sign tables, regenerated from source) = Int operation",
-           "primitive-form wrapper try_into().unwrap(): fits / does-not-fit theorems per operation"]
-FRONTIER = ["float and rational operator forms are exercised by the float/ratio groups (every op there runs its "
-            "owned/borrowed/assign/Context forms too), not by the generated table",
-            "that each Rust impl body is what the macro text says is checked by executing all 1720 generated calls, not proved"]
-RULE = ("The table of call forms is GENERATED on every run from the macro-expanded dashu-int (`cargo +nightly rustc -- "
-        "-Zunpretty=expanded`): every `impl Trait<Rhs> for Lhs` over UBig/IBig/primitive ints and references, for Add Sub Mul "
+           "primitive-form wrapper try_into().unwrap(): fits / does-not-fit theorems per operation",
+           "trait-method forms: div_rem = (/, %), div_rem_euclid = (div_euclid, rem_euclid), UBig.div_rem(IBig) = IBig forms"]
+FRONTIER = ["dashu-ratio and dashu-float operator impls are in the GENERATED table too (212 and 606 impl calls), but only "
+            "their mutual agreement is required here (driver answers `agree`); the value they agree on is checked by the "
+            "ratio group (C04) and the float group (C03), and there is no Lean theorem about those impl bodies",
+            "Context::add/sub/mul/div/rem are inherent methods, not trait impls: they are added to the FBig x FBig groups by "
+            "name (at Context::max of the operand precisions); other Context methods (sqr, cubic, powi, exp, ln, ...) have no "
+            "operator form and are compared with their FBig methods in the float group",
+            "impls whose Rhs is not a number (Mul<Sign>, Add<Rounding> for IBig) are skipped by the table",
+            "that each Rust impl body is what the macro text says is checked by executing all generated calls, not proved"]
+RULE = ("The tables of call forms are GENERATED on every run from the macro-expanded dashu-int, dashu-ratio and dashu-float "
+        "(`cargo +nightly rustc -- -Zunpretty=expanded`): every `impl Trait<Rhs> for Lhs` over UBig/IBig/RBig/Relaxed/"
+        "FBig<R,B>/primitive ints/floats and references, for Add Sub Mul "
         "Div Rem BitAnd BitOr BitXor Shl Shr and their *Assign, DivRem(Assign), Div/Rem/DivRemEuclid, Gcd, ExtendedGcd, grouped "
         "by operation (family, lhs kind, rhs kind). One case = one operation x one operand pair; ALL impls of the group whose "
-        "operand types can hold the values are called and must agree with each other and with the model. Operand pairs: sizes "
+        "operand types can hold the values are called and must agree with each other and (integers) with the model. "
+        "Integer operand pairs: sizes "
         "{0,1,2,3,4 words} x primitive boundaries (0, +-1, 2^7, 2^8-1, 2^15, ... 2^127, 2^128-1) x patterns x signs; shift "
-        "amounts {0,1,63,64,65,127,128,200}. Non-trivial := at least two impls were evaluated and an operand is non-zero; "
+        "amounts {0,1,63,64,65,127,128,200}; carry/borrow chains between heap operands of different lengths; BOTH sides of "
+        "every documented panic for every size-class pair (inline/inline, inline/heap, heap/inline, heap/heap same and "
+        "different length): UBig - UBig with lhs<rhs differing in the top word / lowest word only / all middle words equal, "
+        "and lhs>rhs with borrow chains through all words (3, 4, 25, 200 words); divisor 0/1/2/B/B^2 x dividend 0..25 words "
+        "x signs for every div-like family; gcd(0,0), (0,x), (x,0), (x,x), (x,1). Rational operands (op rform): numerators "
+        "and denominators at word boundaries, integer-valued operands (these enable the UBig/IBig/primitive forms), equal "
+        "operands, zero divisors; RBig and Relaxed are compared by canonical value. Float operands (op fform, instantiated "
+        "at FBig<Zero,2> and FBig<HalfAway,10>): significands at word boundaries x exponents {0,+-1,...,+-100,1000} x "
+        "precisions {0(unlimited),1,2,...,200}; mixed forms take an integer at the primitive boundaries and include the "
+        "reference form on FBig::from(int); FBig x FBig groups also call Context::max(a.context(), b.context()).op(a.repr(), "
+        "b.repr()) and include an unlimited-precision long operand against a short limited one; results compared as "
+        "(significand, exponent, precision). Shifts: every amount at a word boundary x every operand size class x every form. "
+        "Non-trivial := at least two impls were evaluated and an operand is non-zero; "
         "distinct := distinct (op,args) lines.")
 EXPLANATION = ("Proved: the regenerated IBig operator bodies equal the Int operation (so ownership/assign forms, which share one "
                "body, agree); for primitive forms the result fits the output type for UBig % uN, IBig % iN, uN / UBig, and "
-               "provably does not for IBig % uN (negative dividend) and iN::MIN / IBig(-1) (counterexample theorems = findings). "
-               "Explored by correspondence: every one of the generated impl calls on every case; clone/clone_from independence.")
+               "provably does not for IBig % uN (negative dividend), uN / negative IBig and iN::MIN / IBig(-1) (counterexample theorems = "
+               "findings; iN / IBig fits for every other pair); the trait-method forms div_rem / div_rem_euclid / UBig.div_rem(IBig) "
+               "equal the pair of operator forms. "
+               "Explored by correspondence: every one of the generated impl calls (1720 integer, 212 rational, 606 float x 2 "
+               "instantiations) on every case; clone/clone_from independence.")
 ASSUMPTIONS = ["the macro-expanded source printed by rustc is the code that is compiled (nightly -Zunpretty=expanded)"]
 LEVEL_TEXT = ("Lean theorems about the regenerated operator bodies and the primitive-form wrapper decide which forms must agree "
-              "for all inputs; the correspondence executes EVERY operator impl the compiler sees (table generated from the "
-              "macro-expanded crate on each run) against the model on structured operands and requires identical values or "
-              "identical panic kinds.")
-LEVEL_NOTE = ("Trusted: Lean kernel; rustc's macro expansion listing; regex extraction of impl headers (vlib/forms.py); the "
-              "harness. Float/rational forms are covered inside their own groups. Form agreement of bodies that are not "
-              "regenerated (shifts, gcd) rests on the correspondence only.")
+              "for all inputs; the correspondence executes EVERY operator impl the compiler sees in dashu-int, dashu-ratio and "
+              "dashu-float (tables generated from the "
+              "macro-expanded crates on each run) on structured operands and requires identical values or "
+              "identical panic kinds (integers: also equal to the model value).")
+LEVEL_NOTE = ("Trusted: Lean kernel; rustc's macro expansion listing; extraction of impl headers (vlib/forms.py); the "
+              "harness. For float/rational forms the driver only requires agreement; their common value is checked inside "
+              "their own groups. Form agreement of bodies that are not "
+              "regenerated (shifts, gcd, all float/rational bodies) rests on the correspondence only.")
 TECHNIQUE = "Lean 4 theorems on regenerated glue + generated exhaustive call-form table executed against the model"
 JOBS = 12
 
@@ -44,7 +72,9 @@ PRIM_EDGES = [0, 1, 2, 3, 7, 127, 128, 129, 255, 256, 32767, 32768, 65535, 65536
 def pre_build():
     """regenerate the forms table from the macro-expanded crate before the harness is built"""
     from vlib import forms
-    return forms.regenerate()
+    info = forms.regenerate()
+    info["more"] = forms.regenerate_more()
+    return info
 
 
 def groups():
@@ -137,4 +167,169 @@ def generate(rng, tier):
             yield Case("clone.u", [hx(a), hx(b)])
         else:
             yield Case("clone.i", [hx(signed(rng, a)), hx(signed(rng, b))])
+
+
+# ------------------------------------------------------------------ dashu-ratio / dashu-float tables
+
+def more_groups():
+    p = os.path.join(ROOT, "harness", "src", "gen", "forms_more.json")
+    info = json.load(open(p))
+    return ([tuple(k.split(":")) for k in info["ratio"]["group_sizes"]],
+            [tuple(k.split(":")) for k in info["float"]["group_sizes"]])
+
+
+def rat(rng, integer=False):
+    n = rng.choice([0, 1, 2, 3, 7, 255, 2**32, 2**64 - 1, 2**64, 2**64 + 1, 2**128 - 1, 2**130 + 12345,
+                    nat_pattern(rng, rng.choice([1, 2, 3, 4]), rng.choice(PATTERNS))])
+    if rng.random() < 0.5:
+        n = -n
+    if integer:
+        return n, 1
+    d = rng.choice([1, 1, 2, 3, 4, 6, 10, 255, 2**32, 2**64 - 1, 2**64, 2**65 + 1,
+                    nat_pattern(rng, rng.choice([1, 2, 3]), rng.choice(PATTERNS))])
+    return n, max(d, 1)
+
+
+def flt(rng):
+    m = rng.choice([0, 1, 3, 5, 7, 10, 255, 12345, 2**31 - 1, 2**64 - 1, 2**64, 2**64 + 1, 10**19, 10**40 + 1,
+                    nat_pattern(rng, rng.choice([1, 2, 3]), rng.choice(PATTERNS))])
+    if rng.random() < 0.5:
+        m = -m
+    e = rng.choice([0, 0, 1, -1, 2, -3, 7, -8, 63, -64, 64, 100, -100, 1000])
+    p = rng.choice([0, 1, 2, 3, 5, 8, 16, 24, 53, 64, 65, 100, 200])
+    return "f:%s:%d:%d" % (hx(m), e, p)
+
+
+def generate_more(rng, tier):
+    rg, fg = more_groups()
+    per = 10 if tier == "quick" else 300
+    for fam, q in rg:
+        for i in range(per):
+            r = rng.random()
+            na, da = rat(rng, integer=(r < 0.35))          # integer operands enable the UBig/IBig forms
+            nb, db = rat(rng, integer=(0.2 < r < 0.55))
+            if fam in ("div", "rem", "diveuclid", "remeuclid", "divremeuclid") and rng.random() < 0.06:
+                nb = 0
+            if rng.random() < 0.1:
+                nb, db = na, da
+            yield Case("rform", [fam, q, hx(na), hx(da), hx(nb), hx(db)])
+    ints = [0, 1, -1, 2, 7, 127, 128, 255, 256, -128, -129, 32767, 65535, 65536, 2**31, 2**32 - 1, 2**63, -2**63,
+            2**64 - 1, 2**64, 2**127, 2**128 - 1, 2**128, -2**127, -2**127 - 1, 10**30]
+    for inst in ("z2", "h10"):
+        for fam, shape in fg:
+            for i in range(per):
+                if shape == "FF":
+                    a, b = flt(rng), flt(rng)
+                    if rng.random() < 0.1:
+                        b = a
+                    if i < 2:
+                        # mixed precisions: an unlimited-precision (0) long operand against a short limited one, so
+                        # Context::max picks the limited precision and the operand is longer than the working length
+                        long_ = "f:%s:%d:0" % (hx(signed(rng, nat_pattern(rng, rng.choice([2, 3]), "random") | 1)),
+                                               rng.choice([0, -100, 7]))
+                        short = "f:%s:0:%d" % (hx(rng.choice([3, 7, -5, 1000003])), rng.choice([5, 20]))
+                        a, b = (long_, short) if i == 0 else (short, long_)
+                    if fam in ("div", "rem", "diveuclid", "remeuclid", "divremeuclid") and rng.random() < 0.05:
+                        b = "f:0:0:%d" % rng.choice([0, 5, 20])
+                    yield Case("fform", [inst, fam, shape, a, b])
+                elif shape == "FN":
+                    yield Case("fform", [inst, fam, shape, flt(rng), "n:" + hx(rng.choice(ints))])
+                elif shape == "NF":
+                    yield Case("fform", [inst, fam, shape, "n:" + hx(rng.choice(ints)), flt(rng)])
+                else:
+                    sh = rng.choice([0, 1, -1, 2, 7, 63, 64, 65, -64, 100, -100, 1000])
+                    yield Case("fform", [inst, fam, shape, flt(rng), "n:0", dec(sh)])
+
+
+
+def panic_boundary_cases(rng, tier):
+    """both sides of every documented panic condition of the integer operator forms, for every size-class pair
+    (inline/inline, inline/heap, heap/inline, heap/heap same length, heap/heap different length)"""
+    from vlib.props.c01 import usub_boundary_pairs
+    gs = groups()
+    B = 1 << 64
+    for fam, lk, rk in gs:
+        if fam == "sub" and lk == "U" and rk == "U":
+            for a, b in usub_boundary_pairs(rng, tier):
+                yield Case("form", [fam, lk, rk, hx(a), hx(b)])
+        if fam in ("div", "rem", "divrem", "diveuclid", "remeuclid", "divremeuclid") and rk != "S":
+            for n in (0, 1, 2, 3, 4, 25):
+                a = nat_pattern(rng, n, rng.choice(["random", "ones", "zero"]))
+                for sa in ((1, -1) if lk == "I" else (1,)):
+                    for b in (0, 1, 2, B, B * B):       # divisor zero and its neighbours, every divisor size class
+                        for sb in ((1, -1) if rk == "I" and b else (1,)):
+                            yield Case("form", [fam, lk, rk, hx(sa * a), hx(sb * b)])
+        if rk == "S":
+            # every shift amount at a word boundary x every size class of the shifted operand (an operand with bits on
+            # both sides of the boundary, so that s and s+-1 give different answers), every form of the group
+            for s in (0, 1, 63, 64, 65, 127, 128, 129, 191, 192, 193, 200, 1000):
+                for n in (1, 2, 3, 4):
+                    for pat in ("ones", "random"):
+                        a = nat_pattern(rng, n, pat) | (1 << (64 * n - 1)) | 1
+                        for sa in ((1, -1) if lk == "I" else (1,)):
+                            yield Case("form", [fam, lk, rk, hx(sa * a), hx(s)])
+        if fam in ("gcd", "gcdext"):
+            for n in (0, 1, 2, 3, 25):
+                x = nat_pattern(rng, n, "random")
+                for a, b in ((0, 0), (0, x), (x, 0), (x, x), (x, 1)):
+                    yield Case("form", [fam, lk, rk, hx(a), hx(b)])
+
+
+def _digits(n, base):
+    n = abs(n); d = 0
+    while n:
+        n //= base; d += 1
+    return d
+
+
+def _eff_digits(m, p, inst):
+    """digit count of the operand the harness builds from `f:m:e:p`:
+    FBig::from_parts(m, e) (trailing zeros in the base stripped) .with_precision(p) (rounded in the mode of the
+    instantiation when longer than p > 0, stripped again)"""
+    base = {"z2": 2, "h10": 10}[inst]
+    m = abs(m)
+    if m == 0:
+        return 0
+    while m % base == 0:
+        m //= base
+    d = _digits(m, base)
+    if p > 0 and d > p:
+        cut = base ** (d - p)
+        q, r = divmod(m, cut)
+        if inst == "h10" and 2 * r >= cut:      # HalfAway on the magnitude; z2 is mode Zero (truncate)
+            q += 1
+        m = q
+        while m % base == 0:
+            m //= base
+        d = _digits(m, base)
+    return d
+
+
+def kf_float_div_long_dividend(args, impl):
+    """`fform <inst> div FF A B`: the dividend has unlimited precision (0) and more than rhs.digits()+p digits,
+    where p = Context::max precision = the divisor's precision: the six operator forms call repr_div directly and
+    trip its debug assertion, the Context::div form pre-shrinks the dividend (value, or DivideByZero for B = 0)."""
+    if len(args) < 5 or args[1] != "div" or args[2] != "FF":
+        return False
+    def opnd(s):
+        _, m, e, p = s.split(":")
+        return (-int(m[1:], 16) if m.startswith("-") else int(m, 16)), int(p)
+    (ma, pa), (mb, pb) = opnd(args[3]), opnd(args[4])
+    if pa != 0 or pb == 0 or _eff_digits(ma, pa, args[0]) <= _eff_digits(mb, pb, args[0]) + pb:
+        return False
+    import re
+    return re.search(r"^forms-disagree \[1x e\.g\. `Context::div\(&Repr,_&Repr\)_at_Context::max`: (ok_\S+|panic_DivideByZero)\] "
+                     r"\[6x e\.g\. `Div(Assign)?<&?FBig<R,B>>_for_&?FBig<R,B>`: panic_Undocumented\(float/src/div\.rs:\d+\|"
+                     r"assertion_failed:_lhs\.digits\(\)_<=_self\.precision_\+_rhs\.digits\(\)\)\]$", impl) is not None
+
+
+_generate_int = generate
+
+
+def generate(rng, tier):
+    yield from _generate_int(rng, tier)
+    yield from panic_boundary_cases(rng, tier)
+    yield from generate_more(rng, tier)
+
+
 READY = True
